@@ -86,7 +86,33 @@ Theorem std430_eq_wgsl : forall t, wf t = true -> no_attrs t = true ->
 Proof. exact std430_eq_wgsl_lemma. Qed.
 Print Assumptions std430_eq_wgsl.
 
+(* uniform blocks: under WGSL's own constraints for the uniform address space (uniform_ok),
+   for attribute-free types whose matrices have 16-byte columns (std140_mat_ok: not matCx2,
+   not f16), std140 places every member and array element at the WGSL offset.  Sizes of
+   nested structures may differ (std140 rounds them up to 16); placements do not. *)
+Theorem std140_eq_wgsl : forall t,
+  wf t = true -> no_attrs t = true -> uniform_ok t = true -> std140_mat_ok t = true ->
+  erase_sizes (glsl_layout true t) = erase_sizes (spec_layout t).
+Proof. exact std140_eq_wgsl_lemma. Qed.
+Print Assumptions std140_eq_wgsl.
+
 (* ---- MSL ---- *)
+
+(* partial: needs, besides the lowerer's hypotheses, that every vec3 member is followed by no
+   gap or by at least one scalar of room (msl_tight; refuted without it below).  The C++
+   layout of the emitted definitions places every member and element where the IR (= WGSL)
+   layout puts it, sizeof of every structure is its Span and sizeof of every array element
+   is the array stride. *)
+Theorem msl_offsets_eq_ir_partial : forall t,
+  wf t = true -> plain_attrs t = true -> align_inert t = true -> fits t = true -> msl_tight t = true ->
+  erase_leaf (cxx_layout (msl_def t)) = erase_leaf (naga_layout t) /\
+  erase_leaf (cxx_layout (msl_def t)) = erase_leaf (spec_layout t) /\
+  snd (cxx_als (msl_def t)) = stride_of t.
+Proof.
+  intros t A B C D E. destruct (msl_offsets_eq_spec_lemma t A B C D E) as [H1 H2].
+  rewrite (naga_layout_eq_inert t A B C D). auto.
+Qed.
+Print Assumptions msl_offsets_eq_ir_partial.
 
 Theorem msl_offsets_refuted :
   exists t, wf t = true /\ plain_attrs t = true /\ inner_align_inert t = true /\ fits t = true /\
@@ -112,4 +138,35 @@ Example c07_example :
   naga_layout ex_tree = spec_layout ex_tree /\
   path_fits [6; 5; 2] ex_tree = true /\ hlsl_access_offset [6; 5; 2] ex_tree = Some (256 + 5 * 16 + 8) /\
   no_attrs ex_inner = true /\ glsl_layout false ex_inner = spec_layout ex_inner.
+Proof. vm_compute. repeat split; reflexivity. Qed.
+
+(* MSL: a packed vec3 (followed tightly by a scalar), an unpacked one, padding from @size,
+   an array of structures *)
+Definition ex_msl : ty :=
+  TStruct [Mem None None (TScalar SF32);
+           Mem None None (TVec 3 SF32); Mem None None (TScalar SU32);
+           Mem None None (TVec 3 SF32); Mem None (dec 24) (TVec 2 SF32);
+           Mem None None (TArray ex_inner 2);
+           Mem (dec 8) (dec 40) (TMat 2 2 SF32);
+           Mem None None (TVec 3 SF16)].
+Example c07_example_msl :
+  wf ex_msl = true /\ plain_attrs ex_msl = true /\ align_inert ex_msl = true /\ fits ex_msl = true /\
+  msl_tight ex_msl = true /\
+  member_offsets (match ex_msl with TStruct ms => ms | _ => [] end) = [0; 16; 28; 32; 48; 80; 112; 152] /\
+  erase_leaf (cxx_layout (msl_def ex_msl)) = erase_leaf (spec_layout ex_msl).
+Proof. vm_compute. repeat split; reflexivity. Qed.
+
+(* a uniform block within the hypotheses of std140_eq_wgsl: nested structure, array of
+   matrices, vec3 followed by a scalar *)
+Definition ex_uniform : ty :=
+  TStruct [Mem None None (TVec 4 SF32);
+           Mem None None (TMat 4 4 SF32);
+           Mem None None (TStruct [Mem None None (TVec 3 SF32); Mem None None (TScalar SF32)]);
+           Mem None None (TArray (TMat 3 3 SF32) 2);
+           Mem None None (TVec 2 SF32)].
+Example c07_example_uniform :
+  wf ex_uniform = true /\ no_attrs ex_uniform = true /\ uniform_ok ex_uniform = true /\
+  std140_mat_ok ex_uniform = true /\
+  member_offsets (match ex_uniform with TStruct ms => ms | _ => [] end) = [0; 16; 80; 96; 192] /\
+  glsl_layout true ex_uniform = spec_layout ex_uniform.
 Proof. vm_compute. repeat split; reflexivity. Qed.
